@@ -103,6 +103,8 @@ pub trait Cache: impl_details::CacheImplDetails {
         let result = self.get_by_key(key);
         match result {
             Ok(record) => {
+                #[cfg(memcrs_verif)]
+                crate::verif::emit("cache.get.read", 0, 0);
                 if self.check_if_expired(key, &record) {
                     return Err(CacheError::NotFound);
                 }
